@@ -383,12 +383,18 @@ func (l *Layout) Render(nodes []*Node) string {
 		if l.HeaderSpace && l.R != nil {
 			sp = strings.Repeat(" ", l.R.Intn(3))
 		}
+		for _, h := range n.Pre {
+			w.b.WriteString(h[0] + ":" + sp + h[1] + l.eol())
+		}
 		w.b.WriteString("title:" + sp + n.Title + l.eol())
 		if n.Tracking != "" {
 			w.b.WriteString("tracking:" + sp + n.Tracking + l.eol())
 		}
 		for k, v := range n.Headers {
 			w.b.WriteString(k + ":" + sp + v + l.eol())
+		}
+		for _, h := range n.Post {
+			w.b.WriteString(h[0] + ":" + sp + h[1] + l.eol())
 		}
 		w.b.WriteString("---" + l.eol())
 		w.body("", n.Body)
